@@ -77,10 +77,22 @@ TraceInit ==
   /\ hist = <<>>
   /\ src = <<>>
 
+\* A step that hands a header block to an HPACK decoder that gave up in the middle of an earlier block (after which the
+\* connection is closed anyway) has no predictable outcome: the trace is validated up to that point ("cut").
+HasBlock(fs) == \E i \in 1..Len(fs) : fs[i].t \in {"HEADERS", "PP"}
+FeedsLostDecoder(s) ==
+  /\ s.a \in {"recv", "dlv"}
+  /\ eps[s.x].dl
+  /\ HasBlock(eps[s.x].pend \o (IF s.a = "recv" THEN s.fs ELSE SubSeq(chan[s.x], 1, s.k)))
+
 TraceNext ==
   /\ verdict.k = "running"
   /\ pos <= Len(Steps(tid))
-  /\ LET s == Steps(tid)[pos]
+  /\ FeedsLostDecoder(Steps(tid)[pos]) =>
+        /\ verdict' = [Running EXCEPT !.k = "cut", !.at = pos - 1]
+        /\ UNCHANGED <<vars, tid, pos>>
+  /\ ~FeedsLostDecoder(Steps(tid)[pos]) =>
+     LET s == Steps(tid)[pos]
          d == Do([eps |-> eps, chan |-> chan], ActionOf(s))
          df == DiffFields(d.last.p, s.p)
      IN /\ eps' = d.S.eps /\ chan' = d.S.chan /\ last' = d.last
@@ -88,9 +100,11 @@ TraceNext ==
         /\ hist' = hist
         /\ pos' = pos + 1
         /\ tid' = tid
-        /\ verdict' = IF df # {} THEN [k |-> "rejected", at |-> pos, fields |-> df, pred |-> d.last.p]
+        /\ verdict' = IF (\E x \in Roles : d.S.eps[x].sat) THEN [Running EXCEPT !.k = "cut", !.at = pos - 1]
+                      ELSE IF df # {} THEN [k |-> "rejected", at |-> pos, fields |-> df, pred |-> d.last.p]
                       ELSE IF pos = Len(Steps(tid)) THEN [Running EXCEPT !.k = "accepted", !.at = pos]
                       ELSE IF Pair /\ \E x \in Roles : d.S.eps[x].hd THEN [Running EXCEPT !.k = "cut", !.at = pos]
+                      ELSE IF \E x \in Roles : d.S.eps[x].sat THEN [Running EXCEPT !.k = "cut", !.at = pos]
                       ELSE Running
 
 TraceSpec == TraceInit /\ [][TraceNext]_tvars
@@ -99,10 +113,11 @@ TraceSpec == TraceInit /\ [][TraceNext]_tvars
 EmitVerdict ==
   /\ (verdict.k # "running") =>
         PrintT(<<"VERDICT", ToJson([tid |-> tid, id |-> Traces[tid].id, k |-> verdict.k, at |-> verdict.at,
-                                    fields |-> verdict.fields, pred |-> verdict.pred, dev |-> IF IsStep THEN last.dev ELSE {}])>>)
+                                    fields |-> verdict.fields, pred |-> verdict.pred, dev |-> IF IsStep THEN last.dev ELSE {},
+                                    devb |-> IF HasSrc THEN src[1][last.x].dev ELSE {}])>>)
   /\ (verdict.k = "running" /\ Len(Steps(tid)) = 0) =>
         PrintT(<<"VERDICT", ToJson([tid |-> tid, id |-> Traces[tid].id, k |-> "accepted", at |-> 0,
-                                    fields |-> {}, pred |-> <<>>, dev |-> {}])>>)
+                                    fields |-> {}, pred |-> <<>>, dev |-> {}, devb |-> {}])>>)
 
 \* ---------------------------------------------------------------- property formulas on every state of every trace
 Formulas == <<
@@ -121,6 +136,7 @@ Formulas == <<
   <<"P_C08_RoleRestrictedSends", P_C08_RoleRestrictedSends>>,
   <<"P_C09_IdsIncreaseWithParity", P_C09_IdsIncreaseWithParity>>,
   <<"P_C10_OutboundWithinPeerLimit", P_C10_OutboundWithinPeerLimit>>,
+  <<"P_C10_InboundWithinLocalLimit", P_C10_InboundWithinLocalLimit>>,
   <<"P_C11_PeerSettingsAckedOnce", P_C11_PeerSettingsAckedOnce>>,
   <<"P_C12_SettingsValidation", P_C12_SettingsValidation>>,
   <<"P_C14_EmittedBlocksConformant", P_C14_EmittedBlocksConformant>>,
@@ -140,5 +156,6 @@ Formulas == <<
 \* state is the one the specification predicts); never FALSE, so that TLC keeps going
 PropMonitor ==
   \A i \in 1..Len(Formulas) :
-     Formulas[i][2] \/ PrintT(<<"PROPFAIL", ToJson([tid |-> tid, id |-> Traces[tid].id, at |-> pos - 1, formula |-> Formulas[i][1]])>>)
+     Formulas[i][2] \/ PrintT(<<"PROPFAIL", ToJson([tid |-> tid, id |-> Traces[tid].id, at |-> pos - 1, formula |-> Formulas[i][1],
+                                                             dev |-> IF IsStep THEN last.dev ELSE {}])>>)
 =============================================================================
